@@ -280,6 +280,10 @@ def _wsgi_case(rec, cfg, hist):
         rec.count('class.wsgi.short_read_server')
     if trailing:
         rec.count('class.wsgi.pipelined_bytes_after_body')
+    if clclass == 'invalid' and res.exc is None and res.status == 400 and not ctx.log and not inp.api \
+            and not res.problems:
+        rec.count('wsgi.invalid_content_length_rejected')     # refusing the request outright reads nothing either
+        return True
     if res.exc is not None or res.status != 200 or len(ctx.log) != len(hist) or res.problems:
         rec.violation('app-failed', dict(wit0, status=res.status, exc=repr(res.exc), problems=res.problems[:3],
                                          steps_done=len(ctx.log)))
@@ -880,7 +884,7 @@ def compositions(n, with_empty):
 
 W_OPS = [('read', None), ('read', -1), ('read', 0), ('read', 1), ('read', 2), ('read', 100),
          ('readline', None), ('readline', -1), ('readline', 2), ('readlines', None), ('readlines', 2),
-         ('next',), ('iter',), ('exhaust', None), ('close',)]
+         ('next',), ('iter',), ('exhaust', None), ('exhaust', -1), ('close',)]
 W_OPS_SMALL = [('read', None), ('read', 1), ('read', 2), ('readline', None), ('readline', 1), ('readlines', 3),
                ('next',), ('exhaust', 1)]
 W_BODIES = [b'', b'a', b'ab\n', b'a\nb\nc', b'\n\nxy', b'abcdefg\n']
@@ -911,6 +915,11 @@ def wsgi_configs(body, shorts):
         classes.append(('zero', '0', 0))
     if n >= 3:
         classes.append(('short', '1', 1))
+    # a value that declares no usable length (negative, not a number): no byte of the server stream belongs to
+    # this request's body
+    classes += [('invalid', '-1', 0), ('invalid', 'abc', 0)]
+    if n == 3:
+        classes.append(('invalid', '-%d' % n, 0))
     for clclass, clh, limit in classes:
         for short in shorts:
             # a body shorter than the declared length: the client stopped sending, the server reports EOF
@@ -1032,6 +1041,9 @@ def random_wsgi(rng):
         trailing = b''
     else:
         trailing = rng.choice([b'', W_TRAILING, b'\n', b'GET / HTTP/1.1\r\n\r\n', b'zz'])
+    if rng.random() < 0.06:
+        clclass, clh, limit = 'invalid', rng.choice(['-1', '-7', '-%d' % max(n, 1), 'abc', '1e2', '0x10', '1-', '--1']), 0
+        trailing = rng.choice([W_TRAILING, b'GET / HTTP/1.1\r\n\r\n'])
     short = rng.choice([None, None, None, 1, 2, 3, 7])
     ops = []
     for _ in range(rng.randint(1, 12)):
@@ -1047,7 +1059,7 @@ def random_wsgi(rng):
         elif r < 0.86:
             ops.append(('iter',))
         elif r < 0.93:
-            ops.append(('exhaust', rng.choice([None, 1, 3, 64])))
+            ops.append(('exhaust', rng.choice([None, None, 1, 3, 64, -1])))
         elif r < 0.96:
             ops.append(('close',))
         else:
@@ -1135,8 +1147,8 @@ def nontrivial(hist):
 
 
 def run(rec):
-    rec.rule = ('WSGI: bodies x Content-Length class (absent, empty, 0, exact, short, long) x server read style '
-                '(blocking, short reads) x every history up to length H over 15 operation shapes on req.bounded_stream, '
+    rec.rule = ('WSGI: bodies x Content-Length class (absent, empty, 0, exact, short, long, negative / not a number) x server read style '
+                '(blocking, short reads) x every history up to length H over 16 operation shapes on req.bounded_stream, '
                 'pipelined bytes after the body; ASGI: bodies x every chunking (incl. empty chunks, missing body/more_body '
                 'keys) x every way to end or cut the script (final event shapes, http.disconnect at every position, '
                 'nothing after Content-Length) x Content-Length class x every history up to length H over 14 operation '
@@ -1155,7 +1167,10 @@ def run(rec):
                        'discarded what had been handed over',
                        'the stepped iterator (anext) is only interleaved with exhaust()/close()/anext; any other operation '
                        'abandons it',
-                       'invalid / negative Content-Length values and read sizes < -1 are outside the statement',
+                       'WSGI: a Content-Length that is negative or not a number declares no usable length: nothing of the server stream '
+                       'belongs to the body (the stream is empty, or the request is refused with 400); not judged on ASGI',
+                       'sizes < -1 are outside the statement; -1/None are the \'everything that is left\' convention, also for '
+                       'exhaust(chunk_size)',
                        'after close() only the no-over-read and server-side monitors apply']
     quick = rec.tier == 'quick'
     idx = 0
@@ -1258,7 +1273,7 @@ def run(rec):
                     ('mon.wsgi.op.next', 300), ('mon.wsgi.op.iter', 100), ('mon.wsgi.op.exhaust', 100),
                     ('mon.wsgi.eof', 2000), ('mon.wsgi.server_call', 2000),
                     ('class.wsgi.cl.absent', 50), ('class.wsgi.cl.exact', 50), ('class.wsgi.cl.short', 50),
-                    ('class.wsgi.cl.long', 50), ('class.wsgi.short_read_server', 50),
+                    ('class.wsgi.cl.long', 50), ('class.wsgi.cl.invalid', 50), ('class.wsgi.short_read_server', 50),
                     ('class.wsgi.pipelined_bytes_after_body', 500),
                     ('mon.asgi.op.read', 2000), ('mon.asgi.op.readall', 200), ('mon.asgi.op.iter', 200),
                     ('mon.asgi.op.iterk', 100), ('branch.asgi.iteration_abandoned', 300),
